@@ -263,6 +263,54 @@ type seqObs struct {
 	Ambig    []bool
 	Proto    [][2]int // selected count, maps unchanged (1/0)
 	MemoBad  []string
+	RKeys    []rkeyObs // probes of the resolver trie after the history (last repetition)
+}
+
+// one probe of the resolver trie: the list looked up, whether a prototype is
+// stored under it and the index list (universe positions) it was built from
+type rkeyObs struct {
+	List  []int
+	Found bool
+	Built []int
+}
+
+// the lists probed after a history: every index list some call used, all its
+// permutations (lists of up to 4) and its proper prefixes
+func probeLists(calls []CallD) [][]int {
+	seen := map[string]bool{}
+	var out [][]int
+	add := func(l []int) {
+		k := fmt.Sprint(l)
+		if !seen[k] {
+			seen[k] = true
+			out = append(out, append([]int(nil), l...))
+		}
+	}
+	for _, c := range calls {
+		add(c.Indexes)
+	}
+	base := append([][]int(nil), out...)
+	for _, l := range base {
+		if len(l) <= 4 {
+			permute(len(l), func(p []int) {
+				q := make([]int, len(l))
+				for i, k := range p {
+					q[i] = l[k]
+				}
+				add(q)
+			})
+		} else {
+			r := append([]int(nil), l...)
+			for i, j := 0, len(r)-1; i < j; i, j = i+1, j-1 {
+				r[i], r[j] = r[j], r[i]
+			}
+			add(r)
+		}
+		for n := 1; n < len(l); n++ {
+			add(l[:n])
+		}
+	}
+	return out
 }
 
 func renderProto(ix []apk.NamedIndex) (bool, int, string) {
@@ -329,6 +377,10 @@ func runHistory(h *History, reps int) *seqObs {
 				so.Proto = append(so.Proto, [2]int{sel, same})
 			}
 			so.MemoBad = apk.VerifMemoInconsistent()
+			for _, l := range probeLists(h.Calls) {
+				found, built := apk.VerifResolverPrototypeBuiltFrom(w.list(l), w.ix)
+				so.RKeys = append(so.RKeys, rkeyObs{List: l, Found: found, Built: built})
+			}
 		}
 	}
 	for i := range h.Calls {
@@ -453,9 +505,23 @@ func galHCase(h *History, conc bool, calls []CallD, so *seqObs) string {
 	for i, p := range so.Proto {
 		pr[i] = gal.Pair(fmt.Sprint(p[0]), gal.Bool(p[1] == 1))
 	}
-	return fmt.Sprintf("{| h_univ := %s;\n     h_conc := %s; h_calls := %s;\n     h_obs := %s;\n     h_oracle := %s;\n     h_dq_before := %s; h_dq_after := %s; h_ambig := %s; h_proto := %s; h_memo_bad := %s |}",
+	rk := make([]string, len(so.RKeys))
+	for i, k := range so.RKeys {
+		b := "None"
+		if k.Found {
+			bf := make([]int, len(k.Built))
+			for j, x := range k.Built {
+				if bf[j] = x; x < 0 {
+					bf[j] = 999 // an index object outside the universe
+				}
+			}
+			b = "(Some " + galNats(bf) + ")"
+		}
+		rk[i] = gal.Pair(galNats(k.List), b)
+	}
+	return fmt.Sprintf("{| h_univ := %s;\n     h_conc := %s; h_calls := %s;\n     h_obs := %s;\n     h_oracle := %s;\n     h_dq_before := %s; h_dq_after := %s; h_ambig := %s; h_proto := %s; h_memo_bad := %s;\n     h_rkeys := %s |}",
 		galUniverse(h.Universe), gal.Bool(conc), gal.List(cs), galOutcomeSets(so.Obs), galOutcomeSets(so.Oracle),
-		gal.List(bef), gal.List(aft), gal.List(amb), gal.List(pr), gal.StrList(so.MemoBad))
+		gal.List(bef), gal.List(aft), gal.List(amb), gal.List(pr), gal.StrList(so.MemoBad), gal.List(rk))
 }
 
 // ---- stage: history -----------------------------------------------------------
@@ -483,9 +549,9 @@ func hasInstallIf(u []IndexD) bool {
 }
 
 func historyStage(out string, seed uint64, tier string) error {
-	reps, nGen, nFresh := 12, 160, 12
+	reps, nGen, nFresh, nOneKey := 12, 160, 12, 8
 	if tier == "thorough" {
-		reps, nGen, nFresh = 30, 1500, 60
+		reps, nGen, nFresh, nOneKey = 30, 1500, 60, 60
 	}
 	w := &gal.Writer{Dir: out, Require: "From Apko Require Import Corr.C08.", Type: "hcase", Check: "check_history", Shard: 120}
 	hs := corpus()
@@ -503,7 +569,10 @@ func historyStage(out string, seed uint64, tier string) error {
 		}
 		so := runHistory(h, rr)
 		// fresh-process cross-check of the oracle (corpus + a sample)
-		if k < nCorpus || k%((nGen/nFresh)+1) == 0 {
+		if k < nCorpus || k%((nGen/nFresh)+1) == 0 || (h.Class == "gen/one-key" && stat["one_key_histories_with_fresh_process_oracle"] < nOneKey) {
+			if h.Class == "gen/one-key" {
+				stat["one_key_histories_with_fresh_process_oracle"]++
+			}
 			for i, c := range h.Calls {
 				o, err := freshProcess(h.Universe, c)
 				if err != nil {
@@ -922,7 +991,7 @@ func main() {
 	out := flag.String("out", "", "cases directory")
 	seed := flag.Uint64("seed", 1, "seed")
 	tier := flag.String("tier", "quick", "tier")
-	stage := flag.String("stage", "history", "history|conc|indexcache")
+	stage := flag.String("stage", "history", "history|conc|indexcache|indexhist")
 	child := flag.String("child", "", "internal: call|conc")
 	_ = flag.String("replay", "", "unused: cases are regenerated from the seed")
 	flag.Parse()
@@ -942,6 +1011,8 @@ func main() {
 		err = concStage(*out, *seed, *tier)
 	case "indexcache":
 		err = indexcacheStage(*out, *seed, *tier)
+	case "indexhist":
+		err = indexhistStage(*out, *seed, *tier)
 	default:
 		err = fmt.Errorf("unknown stage %q", *stage)
 	}
